@@ -64,13 +64,13 @@ type pathEnd struct {
 }
 
 type ExStats struct {
-	Paths, MaxDepth              int
-	ModelHits, Syntactic         int
-	Decisions                    int
+	Paths, MaxDepth               int
+	ModelHits, Syntactic          int
+	Decisions                     int
 	XChecked, XDisagree, XUnknown int
-	ModelChecks                  int
-	FanoutCapHits                int
-	Fallbacks                    int
+	ModelChecks                   int
+	FanoutCapHits                 int
+	Fallbacks                     int
 }
 
 type Explorer struct {
@@ -94,7 +94,7 @@ type Explorer struct {
 	prefixFresh bool // the last prefix step is an alternative nobody explored yet (work stealing)
 
 	FanoutCap int
-	xValid    int // number of levels of the second solver's stack that match the current decision prefix
+	xValid    int  // number of levels of the second solver's stack that match the current decision prefix
 	noFork    bool // set during predicated execution: any need to fork aborts it
 	St        ExStats
 	inconc    []string
